@@ -32,7 +32,7 @@ CLAIMED = {
                  "literals turned into variables are evaluated as one function body over successive argument tuples and over "
                  "operands reached by in-place edits; single-operator chains of 65-120 operands stay left-associative. Exploration with an "
                  "exhaustive operator-pair core."),
-        "note": _TB + "; % on negative operands only by law; mixed-kind ordering and membership-next-to-arithmetic not asserted",
+        "note": _TB + "; % on negative operands only by law; which way values of different kinds compare (kinds first, in the order their texts begin) and membership-next-to-arithmetic not asserted",
     },
     "C06": {
         "technique": "runtime monitoring: reference-equality oracle (exact rationals, structural) on all pairs/triples of adversarial value pools at the ckl.values API and through programs, plus always-on law wrappers on every __eq__/__hash__ call",
@@ -49,7 +49,7 @@ CLAIMED = {
                  "pools of numbers, strings over an alphabet straddling the quote character, booleans, dates and lists; "
                  "<=, >, >=, compare, less/greater, min, max consistent with <; sorted() output an ordered stable permutation "
                  "(witnessed by [key, tag] pairs and 1 vs 1.0) with and without key/cmp; set and map keys enumerated ascending."),
-        "note": _TB + "; mixed-kind comparison (text fallback) deliberately not asserted",
+        "note": _TB + "; which way values of different kinds compare is not asserted here (C12 asserts that the order across kinds is a strict total one)",
     },
     "C08": {
         "technique": "runtime monitoring: closed-loop oracle str(v) -> interpret -> v' (equal, same type, same text), rendering agreement across construction orders, numeral/quote shape predicates, invariant hook on every ValueInt construction",
